@@ -871,7 +871,7 @@ func (w *l1World) runBlock() *core.Violation {
 	// crash plan
 	crash := ""
 	if w.p.Crash > 0 && r.Chance(w.p.Crash, 100) {
-		crash = []string{"before-finalize", "after-finalize-before-commit", "after-commit"}[r.Intn(3)]
+		crash = []string{"before-finalize", "after-finalize-before-commit", "after-commit", "aborted-optimistic-execution"}[r.Intn(4)]
 	}
 	return w.execBlock(bc, txs, stub, crash)
 }
@@ -891,9 +891,21 @@ func (w *l1World) execBlock(bc blockCtx, txs []pendingTx, stub []node.StubOp, cr
 		w.restart(crash)
 	}
 	w.n.Fault.ResetLog()
-	res, err := w.n.Finalize(T, raw, stub)
+	var res *abci.ResponseFinalizeBlock
+	var err error
+	if crash == "aborted-optimistic-execution" {
+		r.Fault("aborted-optimistic-execution")
+		r.Logf("block %d is first executed optimistically, that execution is aborted and discarded, then it is executed again", bc.Height)
+		res, err = w.n.FinalizeAfterAbortedOE(T, raw, stub)
+	} else {
+		res, err = w.n.Finalize(T, raw, stub)
+	}
 	if err != nil {
 		return w.fail(mismatch{"block.finalize-error", "finalize-block-error", []string{w.p.Prop}, fmt.Sprintf("FinalizeBlock failed: %v", err)})
+	}
+	if n := len(w.n.Fault.TxFired); n > len(txs) {
+		w.n.Fault.TxFired = w.n.Fault.TxFired[n-len(txs):]
+		w.n.Fault.TxCalls = w.n.Fault.TxCalls[n-len(txs):]
 	}
 	fired := append([]bool{}, w.n.Fault.TxFired...)
 	if crash == "after-finalize-before-commit" {
